@@ -37,6 +37,8 @@ RELEVANT = {
     "tomography.py": ["C02", "C08", "C10", "C11", "C12", "C13"],
 }
 
+SECOND = False        # second operator family (--second): keyword dropped, connectivity name changed, argument renamed ...
+NAMES = ["all", "linear", "star", "cycle", "T", "Q", "E", "H", "ladder"]
 CMP = {ast.Lt: ast.LtE, ast.LtE: ast.Lt, ast.Gt: ast.GtE, ast.GtE: ast.Gt, ast.Eq: ast.NotEq, ast.NotEq: ast.Eq, ast.In: ast.NotIn, ast.NotIn: ast.In,
        ast.Is: ast.IsNot, ast.IsNot: ast.Is}
 BIN = {ast.Add: ast.Sub, ast.Sub: ast.Add, ast.Mult: ast.FloorDiv, ast.LShift: ast.RShift, ast.RShift: ast.LShift, ast.BitAnd: ast.BitOr,
@@ -67,6 +69,24 @@ def sites(fnode):
             yield ("dropcall", n, f".{n.func.attr}() dropped")
         if isinstance(n, ast.Call) and ast.unparse(n.func) in ("list", "tuple", "copy.deepcopy", "copy.copy", "deepcopy", "sorted", "reversed") and len(n.args) == 1:
             yield ("unwrap", n, f"{ast.unparse(n.func)}(x) -> x")
+        if isinstance(n, ast.Call) and n.keywords and SECOND:
+            for i, kw in enumerate(n.keywords):
+                if kw.arg is not None:
+                    yield (f"dropkw{i}", n, f"keyword {kw.arg}= dropped from {ast.unparse(n.func)}(...)")
+        if isinstance(n, ast.Constant) and isinstance(n.value, str) and n.value in NAMES and SECOND:
+            other = NAMES[(NAMES.index(n.value) + 1) % len(NAMES)]
+            yield (f"str:{other}", n, f"'{n.value}' -> '{other}'")
+        if isinstance(n, ast.Call) and SECOND:
+            locs = sorted({a.arg for a in ast.walk(fnode) if isinstance(a, ast.arg)} | {t.id for st in ast.walk(fnode) if isinstance(st, ast.Assign) for t in st.targets if isinstance(t, ast.Name)})
+            for i, a in enumerate(n.args):
+                if isinstance(a, ast.Name) and a.id in locs:
+                    for other in locs:
+                        if other != a.id and other not in ("self", "cls"):
+                            yield (f"argname{i}:{other}", n, f"argument {i} of {ast.unparse(n.func)[:30]}: {a.id} -> {other}")
+        if isinstance(n, ast.Subscript) and isinstance(n.slice, ast.Slice) and n.slice.step is not None and SECOND:
+            yield ("dropstep", n, "slice step dropped")
+        if isinstance(n, ast.Return) and n.value is not None and SECOND and not isinstance(n.value, ast.Constant):
+            yield ("retnone", n, "return value -> None")
         if isinstance(n, ast.If):
             yield ("negif", n, "condition negated")
         if isinstance(n, ast.UnaryOp) and isinstance(n.op, ast.Not):
@@ -123,6 +143,17 @@ def mutate(tree_ast, target, op):
                 return n.operand
             elif op == "delstmt":
                 return ast.Pass()
+            elif op.startswith("dropkw"):
+                del n.keywords[int(op[6:])]
+            elif op.startswith("str:"):
+                n.value = op[4:]
+            elif op.startswith("argname"):
+                i, other = op[7:].split(":")
+                n.args[int(i)] = ast.Name(id=other, ctx=ast.Load())
+            elif op == "dropstep":
+                n.slice.step = None
+            elif op == "retnone":
+                n.value = ast.Constant(None)
             return n
     t = T()
     new = t.visit(new)
@@ -202,9 +233,14 @@ def main():
     ap.add_argument("--out", default="/tmp/mutsweep.jsonl")
     ap.add_argument("--props", default="")
     ap.add_argument("--limit", type=int, default=0)
+    ap.add_argument("--second", action="store_true", help="only the second operator family")
     a = ap.parse_args()
     files = a.files.split(",")
+    global SECOND
+    SECOND = a.second
     ms = gen(a.root, files)
+    if a.second:
+        ms = [m for m in ms if m["op"].startswith(("dropkw", "str:", "argname", "dropstep", "retnone"))]
     if a.limit:
         ms = ms[:a.limit]
     print(len(ms), "mutants", file=sys.stderr)
